@@ -15,7 +15,7 @@ import (
 func init() {
 	register(&propDef{
 		id:      "C03",
-		explain: "Structural necessary conditions of 'what the server writes is framed as its own header says': (R1) the fixed-size body writer hands the body stream to the copy primitive only through a bounding writer built from the declared size, and every use of the inner writer inside that type is bounded by (or control-dependent on a comparison with) the remaining count; (R2) on every path of writeBodyFixedSize a nil error is returned only when the copied count was compared equal to the declared size; (R3) every body-emitting call of Response.Write / writeBodyStream is control-dependent on the no-body predicate (SkipBody / 1xx-204-304); (R4) in the serve loop HEAD is tested before the response is written and the response written then has SkipBody set; a timeout response is installed with SkipBody under IsHead() of the timed-out request; (R5) SetContentLength of both header types makes the framing headers exclusive on every path: installing a numeric Content-Length removes Transfer-Encoding, installing chunked clears the Content-Length bytes. (R6) every writeChunk call is either the terminator (a constant-empty argument, after which no further chunk is written in that function) or a data chunk whose length was tested non-zero on the way to the call - an empty data chunk is the last-chunk marker. (R7) in the chunk-writing read loop the bytes a Read returned are framed, or n was found zero, before that Read's error ends the loop or the next Read is made. (R9) the flush of the connection writer after the serve loop is not control-dependent on a test of the error the function ends with (complete responses waiting in the buffer are delivered also when a later one failed); (R8) the serve loop looks at the request method for the HEAD decision before the handler dispatch and never between the dispatch and the end of the iteration. Not decided: byte-exact agreement with an independent parser, trailers, chunk encoding itself.",
+		explain: "Structural necessary conditions of 'what the server writes is framed as its own header says': (R1) the fixed-size body writer hands the body stream to the copy primitive only through a bounding writer built from the declared size, and every use of the inner writer inside that type is bounded by (or control-dependent on a comparison with) the remaining count; (R2) on every path of writeBodyFixedSize a nil error is returned only when the copied count was compared equal to the declared size; (R3) every body-emitting call of Response.Write / writeBodyStream is control-dependent on the no-body predicate (SkipBody / 1xx-204-304); (R4) in the serve loop HEAD is tested before the response is written and the response written then has SkipBody set; a timeout response is installed with SkipBody under IsHead() of the timed-out request; (R5) SetContentLength of both header types makes the framing headers exclusive on every path: installing a numeric Content-Length removes Transfer-Encoding, installing chunked clears the Content-Length bytes. (R6) every writeChunk call is either the terminator (a constant-empty argument, after which no further chunk is written in that function) or a data chunk whose length was tested non-zero on the way to the call - an empty data chunk is the last-chunk marker. (R7) in the chunk-writing read loop the bytes a Read returned are framed, or n was found zero, before that Read's error ends the loop or the next Read is made. (R10) in Response.writeBodyStream the size given to the fixed-size writer comes out of a merge that takes -1 (undeclared, hence chunked) from a branch that looked at the stored Content-Length bytes; (R9) the flush of the connection writer after the serve loop is not control-dependent on a test of the error the function ends with (complete responses waiting in the buffer are delivered also when a later one failed); (R8) the serve loop looks at the request method for the HEAD decision before the handler dispatch and never between the dispatch and the end of the iteration. Not decided: byte-exact agreement with an independent parser, trailers, chunk encoding itself.",
 		run: func(p *Prog, r *Report) {
 			runC03Bounded(p, r)
 			runC03SendBody(p, r)
@@ -24,6 +24,7 @@ func init() {
 			runC03ReadData(p, r)
 			headDecidedBeforeHandler(p, r)
 			exitFlushIsUnconditional(p, r)
+			undeclaredSizeIsChunked(p, r)
 			p.serveLoop("C03").report(r, "C03")
 			timeoutProducerRule(p, r, "C03")
 		},
@@ -720,4 +721,102 @@ func exitFlushIsUnconditional(p *Prog, r *Report) {
 		}
 	}
 	r.Floor("R9", "flushes of the connection writer after the serve loop", n, 1)
+}
+
+// undeclaredSizeIsChunked (C03.R10): a response body stream is written as a body of fixed size only when that size is
+// going to be declared: in Response.writeBodyStream every path to the fixed-size writer passes a look at the stored
+// Content-Length bytes (empty means no such line will be written) or a call that sets them. Otherwise a deleted
+// Content-Length leaves a response with a body and no framing at all.
+func undeclaredSizeIsChunked(p *Prog, r *Report) {
+	fn := p.Func("(*Response).writeBodyStream")
+	fixed := p.Func("writeBodyFixedSize")
+	if fn == nil || fixed == nil {
+		r.Undecided("R10", "(*Response).writeBodyStream / writeBodyFixedSize", "not found")
+		return
+	}
+	declared := func(i ssa.Instruction) bool {
+		switch x := i.(type) {
+		case *ssa.If:
+			found := false
+			var walk func(v ssa.Value, d int)
+			walk = func(v ssa.Value, d int) {
+				if d > 6 || found || v == nil {
+					return
+				}
+				switch w := v.(type) {
+				case *ssa.BinOp:
+					walk(w.X, d+1)
+					walk(w.Y, d+1)
+				case *ssa.UnOp:
+					if _, fv := loadedField(w); fv != nil && fv.Name() == "contentLengthBytes" {
+						found = true
+						return
+					}
+					walk(w.X, d+1)
+				case *ssa.Call:
+					for _, a := range w.Call.Args {
+						walk(a, d+1)
+					}
+				case *ssa.Phi:
+					for _, e := range w.Edges {
+						walk(e, d+1)
+					}
+				}
+			}
+			walk(x.Cond, 0)
+			return found
+		case ssa.CallInstruction:
+			f := x.Common().StaticCallee()
+			return f != nil && f.Name() == "SetContentLength"
+		}
+		return false
+	}
+	// the size handed to the fixed-size writer comes out of a merge that takes -1 (not declared) from a branch that looked
+	// at the stored Content-Length bytes: path-insensitive on purpose (the length is tested twice, against < 0 and >= 0,
+	// and a path search takes the contradictory combination)
+	n := 0
+	allCalls(fn, func(b *ssa.BasicBlock, c ssa.CallInstruction) {
+		if c.Common().StaticCallee() != fixed || len(c.Common().Args) < 3 {
+			return
+		}
+		n++
+		guarded := false
+		seen := map[ssa.Value]bool{}
+		var walk func(v ssa.Value, d int)
+		walk = func(v ssa.Value, d int) {
+			if d > 8 || seen[v] || v == nil {
+				return
+			}
+			seen[v] = true
+			switch w := v.(type) {
+			case *ssa.Convert:
+				walk(w.X, d+1)
+			case *ssa.ChangeType:
+				walk(w.X, d+1)
+			case *ssa.Phi:
+				for k, e := range w.Edges {
+					if kk, isK := constInt(e); isK && kk < 0 {
+						pr := w.Block().Preds[k]
+						tests := []ssa.Instruction{}
+						for cur := pr; cur != nil; cur = cur.Idom() {
+							tests = append(tests, cur.Instrs[len(cur.Instrs)-1])
+						}
+						for _, t := range tests {
+							if declared(t) {
+								if _, isIf := t.(*ssa.If); isIf {
+									guarded = true
+								}
+							}
+						}
+					} else {
+						walk(e, d+1)
+					}
+				}
+			}
+		}
+		walk(c.Common().Args[2], 0)
+		r.Check("R10", "Response.writeBodyStream: the size of a fixed-size stream body is 'not declared' (-1, chunked) whenever no Content-Length bytes are stored", guarded, p.Pos(c.Pos()),
+			"the size given to the fixed-size writer does not come out of a merge that takes -1 under a test of Header.contentLengthBytes: after Del(\"Content-Length\") the numeric length is 0 and no Content-Length line is written - the response has a body stream and no framing, the peer reads the next response as its body")
+	})
+	r.Floor("R10", "fixed-size writes in Response.writeBodyStream", n, 1)
 }
